@@ -154,7 +154,7 @@ func compileFiles(dir string, names []string, out string) (js []byte, err error)
 var (
 	rxPkgStart  = regexp.MustCompile(`(?m)^\$packages\["([^"]+)"\] = \(function\(\) \{`)
 	rxImportVar = regexp.MustCompile(`(?m)^\t(\$?\w+) = \$packages\["([^"]+)"\];`)
-	rxInitCall  = regexp.MustCompile(`\$r = (\$?\w+)\.\$init\(\);`)
+	rxInitCall  = regexp.MustCompile(`(?m)^\s*(?:\$r = )?(\$?\w+)\.\$init\(\);`) // awaited (`$r = p.$init();`) or plain (`p.$init();`)
 	rxBlk       = regexp.MustCompile(`\$r = (\$?\w+)\.\$init\(\); /\* \*/ \$s = (\d+); case (\d+): if\(\$c\) \{ \$c = false; \$r = \$r\.\$blk\(\); \} if \(\$r && \$r\.\$blk !== undefined\) \{ break s; \}`)
 )
 
